@@ -6,7 +6,7 @@ SPEC = {'level': 'exploration',
                  '(127/8, ::1); for 0/8 and RFC1918 peer addresses only the disconnection is asserted',
                  'clause (c) is asserted for a fresh consensus-invalid full block built on the current tip (12 fault kinds, invalid by construction) and for headers '
                  'with invalid proof of work; private-broadcast connections (which ignore such messages) are excluded'],
- 'stages': [gen('vh_c36', 'c36_punish', 640, 10000, min_cases_quick=200, max_seconds_quick=1800, max_seconds_thorough=2400,
+ 'stages': [gen('vh_c36', 'c36_punish', 480, 10000, min_cases_quick=160, max_seconds_quick=1800, max_seconds_thorough=2400,
                 floors={'a-checked': 0.5, 'a-checked-rejected-tx': 0.4, 'b-checked': 0.1, 'c-checked-local': 0.04, 'c-checked-public': 0.06, 'blocksonly': 0.08,
                         'conn:manual': 0.1, 'perm:noban': 0.15, 'conn:block-relay': 0.05, 'conn:addr-fetch': 0.05},
                 rule='peer/message histories on a NetSim node; non-trivial = a rejected tx checked under (a) and a check of (b) or (c)'),
